@@ -25,7 +25,7 @@
       the lock.  Before that commit both orders were possible and a stale head or tail pointer
       could be persisted (findings F27/F28; Props/C17.v keeps the two witness schedules).
       [ctxf] is the datastore flavour: with the plain datastore ([false]) the two deletes of a
-      height hit the datastore at once; with the context-aware one ([true]) they are buffered in
+      height hit the datastore together, as one batch of their own (deleteKeys); with the context-aware one ([true]) they are buffered in
       the write batch of [deleteSequential] and committed together, and [HashByHeight] reads the
       snapshot the read transaction took when [deleteSequential] started.
 
@@ -140,11 +140,12 @@ Definition dstep (s : st) (f : fl) (k : dl) : option (st * fl * dl) :=
     end
   | KHand cur id wb snap => Some (s, f, KDelH cur id wb snap)
   | KDelH cur id wb snap =>
+    (* deleteKeys: Delete(hash key) goes into a batch: the write batch of the pass, or one of its own *)
     if ctxf then Some (s, f, KDelI cur id (wb ++ [WDelH id]) snap)
-    else Some (write s [WDelH id], f, KDelI cur id wb snap)
+    else Some (s, f, KDelI cur id wb snap)
   | KDelI cur id wb snap =>
     if ctxf then Some (s, f, KPend cur (wb ++ [WDelI cur]) snap)
-    else Some (write s [WDelI cur], f, KPend cur wb snap)
+    else Some (write s [WDelH id; WDelI cur], f, KPend cur wb snap)   (* ... committed with Delete(height key) *)
   | KPend cur wb snap => Some (pend_del s cur, f, k_next cur wb snap)
   | KCommit wb =>
     Some (match wb with [] => s | _ => write s wb end, f, KGetT)
